@@ -238,4 +238,42 @@ theorem sessionLoop_attempts (T : Tables) (k : Nat) (rest : List (Exch ρ)) (n :
       | ret r => simp only []; omega
       | raised c st => simp only []; omega
 
+/-! ### traffic logging is observationally transparent when every logging statement is of the safe kind -/
+
+theorem contains_of_all_safe (l : List LogStmt) (h : l.all (· == .safe) = true) :
+    l.contains .decodeStrictBody = false := by
+  induction l with
+  | nil => rfl
+  | cons a r ih =>
+    simp only [List.all_cons, Bool.and_eq_true, beq_iff_eq] at h
+    simp only [List.contains_cons, ih h.2, Bool.or_false, h.1]
+    decide
+
+omit [DecidableEq ρ] in
+theorem withLog_safe (T : Tables) (blk : LogBlock) (log : Bool) (utf8 : ρ → Bool) (o : Exch ρ)
+    (h : blk.post.all (· == .safe) = true) : withLog T blk log utf8 o = o := by
+  cases o with
+  | exc c st => rfl
+  | ok r =>
+    simp only [withLog, logFault, contains_of_all_safe _ h, Bool.false_and, Bool.false_eq_true, if_false]
+    cases log <;> rfl
+
+omit [DecidableEq ρ] in
+theorem requestL_eq_request (T : Tables) (h : logSafe T = true) (session log : Bool) (utf8 : ρ → Bool)
+    (outs : List (Exch ρ)) : requestL T session log utf8 outs = request T session outs := by
+  unfold requestL
+  have hall : ∀ blk : LogBlock, blk = T.logPlain ∨ blk = T.logInner → blk.post.all (· == .safe) = true := by
+    intro blk hb
+    simp only [logSafe, List.all_append, Bool.and_eq_true] at h
+    rcases hb with rfl | rfl
+    · exact h.1.1.2
+    · exact h.2
+  have : outs.map (withLog T (if session = true then T.logInner else T.logPlain) log utf8) = outs := by
+    have hb := hall (if session = true then T.logInner else T.logPlain) (by cases session <;> simp)
+    conv => rhs; rw [← List.map_id outs]
+    apply List.map_congr_left
+    intro o _
+    exact withLog_safe T _ log utf8 o hb
+  rw [this]
+
 end Upnp.C17
